@@ -225,6 +225,59 @@ def _(c):
             c.ensure("refused_outside", c.raises(ValueError, lambda: fn(q)))
 
 
+
+def _grid_change(tier, rng):
+    """(order before, order after) over {2, 3, 4, 5, 8} x {2, 3, 5, 8, 12}, before != after, table of 40 uniform or jittered abscissae; the same queries before and after"""
+    for k1 in (2, 3, 4, 5, 8):
+        for k2 in (2, 3, 5, 8, 12):
+            if k1 != k2:
+                yield {"k1": k1, "k2": k2, "jitter": (k1 + k2) % 2, "seed": 31 * k1 + k2}
+
+
+@contract("C09", "settings_change", funcs=[f"{INT}.__call__", f"{INT}._lagrange", f"{EPH}:Ephem.order.fset", f"{EPH}:Ephem.method.fset"], grid=_grid_change, level="bounded")
+def _(c):
+    """bounded: an interpolator answers according to its CURRENT order and method: after queries at one order, changing the order (or the method, and back) on the
+    same object gives exactly what a fresh interpolator of that order gives -- in particular it reproduces polynomials of degree < the new order; the same through
+    Ephem.order / Ephem.method once the ephemeris has been interpolated"""
+    import random
+    from beyond.utils.interp import Interp
+    k1, k2 = c.integer("k1"), c.integer("k2")
+    rng = random.Random(c.integer("seed"))
+    n = 40
+    xs = np.array([i + (rng.uniform(-0.2, 0.2) if c.integer("jitter") else 0.0) for i in range(n)], dtype=float)
+    coef = [rng.uniform(-1, 1) for _ in range(k2)]
+    xc, sc = xs.mean(), (xs[-1] - xs[0]) / 2
+    p = lambda t: sum(coef[k] * ((t - xc) / sc) ** k for k in range(k2))
+    ys = np.array([p(t) for t in xs])
+    qs = [xs[0] + 0.4, xs[3] + 0.5, xs[17] + 0.25, xs[18] + 0.75, xs[-2] + 0.6, xs[20]]
+    f = Interp(xs, ys, "lagrange", k1)
+    [f(q) for q in qs]
+    f.order = k2
+    fresh = Interp(xs, ys, "lagrange", k2)
+    c.ensure("same_as_a_fresh_interpolator_of_the_new_order", all(f(q) == fresh(q) for q in qs))
+    c.ensure("poly_of_the_new_order_reproduced", all(abs(f(q) - p(q)) <= 1e-6 * max(1, abs(p(q))) for q in qs))
+    f.method = "linear"
+    lin = Interp(xs, ys, "linear")
+    c.ensure("linear_after_lagrange", all(f(q) == lin(q) for q in qs))
+    f.method = "lagrange"
+    c.ensure("lagrange_again", all(f(q) == fresh(q) for q in qs))
+    # through the ephemeris
+    from beyond.orbits import Orbit, Ephem
+    from beyond.dates import Date, timedelta
+    from beyond.propagators.kepler import Kepler
+    from beyond.constants import Earth
+    from contracts.c19_mission import _kep2cart
+    r0, v0 = _kep2cart(6.9e6, 0.001, 0.9, 1.0, 2.0, 0.3, Earth.mu)
+    d0 = Date(2018, 5, 4)
+    orb = Orbit(list(r0) + list(v0), d0, "cartesian", "EME2000", Kepler())
+    pts = list(orb.iter(stop=d0 + timedelta(seconds=60 * 39), step=timedelta(seconds=60)))
+    eph, eph2 = Ephem(pts, method="lagrange", order=k1), Ephem(pts, method="lagrange", order=k2)
+    dq = [d0 + timedelta(seconds=s) for s in (25.0, 215.0, 1051.0, 1099.5, 2300.0)]
+    [eph.interpolate(d) for d in dq]
+    eph.order = k2
+    c.ensure("ephem.same_as_a_fresh_ephemeris_of_the_new_order",
+             all(bool(np.array_equal(np.asarray(eph.interpolate(d), dtype=float), np.asarray(eph2.interpolate(d), dtype=float))) for d in dq))
+
 def _grid_ephem(tier, rng):
     """Keplerian LEO (a=6.9e6, e=0.001) sampled at 60 s and 180 s, table lengths {8, 9, 30}, order 8: queries at nodes,
     middle of the first / last / a central interval"""
